@@ -91,7 +91,7 @@ def merge(c, h):
     t2 = h["text2"]
     r["e2txt"] = t2[len(PRE):-len(SUF)] if c["fam"] == "expr" and t2.startswith(PRE) and t2.endswith(SUF) else "?"
     for x in ("x1", "x2"):
-        r[x] = {k: h[x][k] for k in ("ran", "ok", "rows", "state")}
+        r[x] = {k: h[x][k] for k in ("ran", "ok", "syn", "rows", "state")}
         r[x + "detail"] = h[x]["detail"]
     return r
 
@@ -193,7 +193,7 @@ def run():
             rep = contract(chk, sd, flat, "replayed record judged by the contract")
             for b in rep["bad"]:
                 r = flat[b["idx"] - 1]
-                chk.violation(render_key(b), describe(r, b["clauses"]), {"record": r, "fixture": fixture})
+                chk.violation(render_key(b), describe(r, b["own"]), {"record": r, "fixture": fixture})
             chk.cov["states"] = max(1, chk.cov["states"])
             chk.cov["transitions"] = max(1, chk.cov["transitions"])
             chk.cov["evaluations"] = 1
@@ -261,7 +261,7 @@ def run():
         chk.cov["rejected_by_parser"] = int(cnt["rejected"])
         for b in rep["bad"]:
             r = flat[b["idx"] - 1]
-            chk.violation(render_key(b), describe(r, b["clauses"]), {"record": r, "fixture": fixture})
+            chk.violation(render_key(b), describe(r, b["own"]), {"record": r, "fixture": fixture})
         chk.cov["traces_validated_against_impl"] += len(parsed)
         chk.cov["evaluations"] += 2 * len(parsed) + int(cnt["decided_exec"]) + int(cnt["decided_denote"])
         chk.cov["distinct_nontrivial"] += len({(r["fam"], r["d"], tuple(sorted(r["what"]))) for r in parsed})
@@ -287,7 +287,7 @@ def run():
               d, dict(d, x2=dict(d["x2"], ok=False)),
               e, dict(e, toks2=[dict(t, q=(not t["q"]) if t["t"] == e["name"] else t["q"]) for t in e["toks2"]])]
         rs = contract(chk, sd, st, None)
-        got = {x["idx"]: sorted(x["clauses"]) for x in rs["bad"]}
+        got = {x["idx"]: sorted(x["own"]) for x in rs["bad"]}
         exp = {2: ["reparse"], 4: ["idem"], 6: ["exec"], 8: ["exec"], 10: ["denote"]}
         if got != exp:
             raise vf.NoVerdict("binding self-test failed: expected rejections %s, contract reported %s" % (exp, got))
